@@ -266,6 +266,8 @@ class DSG:
                     dep_lower, dep_upper = linked_des_var_node.bounds
                     dep_value = dep_lower + bounds_fraction * (dep_upper - dep_lower)
 
+                # Never leave the domain of the linked variable (fewer options, floating-point rounding)
+                dep_value, _ = linked_des_var_node.correct_value(dep_value)
                 self._des_var_values[linked_des_var_node] = dep_value
 
     def des_var_value(self, des_var_node: DesignVariableNode) -> Optional[Union[float, int]]:
